@@ -361,8 +361,14 @@ func (P *Program) smoke(g *Gen, base, dir string) {
 	}
 	var b strings.Builder
 	b.WriteString(base)
-	for _, p := range g.smokePts {
-		b.WriteString("(push 1)\n(assert " + p.reach + ")\n(check-sat)\n(pop 1)\n")
+	// one literal per point and check-sat-assuming: no push/pop, because a solver
+	// time limit that fires inside `push` leaves the assertion on the base level
+	// and makes every later answer wrong (seen on a loaded machine: "push canceled")
+	for i, p := range g.smokePts {
+		b.WriteString(fmt.Sprintf("(declare-const smk!%d Bool)\n(assert (= smk!%d %s))\n", i, i, p.reach))
+	}
+	for i := range g.smokePts {
+		b.WriteString(fmt.Sprintf("(check-sat-assuming (smk!%d))\n", i))
 	}
 	scr := b.String()
 	h := hashStr("smoke\n" + scr)
@@ -399,7 +405,7 @@ func (P *Program) smoke(g *Gen, base, dir string) {
 		}
 		k++
 	}
-	if k != len(g.smokePts) {
+	if k != len(g.smokePts) || strings.Contains(out, "(error") {
 		ob.Status = "cover-unknown"
 		ob.Output = fmt.Sprintf("smoke run answered %d of %d points\n%s", k, len(g.smokePts), truncate(out, 2000))
 		return
